@@ -327,7 +327,8 @@ static std::string filler(Tape &t, const std::string &slot, int depth) {
 }
 
 static std::string lit(Tape &t) {
-  switch (t.weighted({4, 3, 3})) {
+  switch (t.weighted({4, 3, 3, 1})) {
+    case 3: return t.chance(1, 2) ? "\"s\"" : "\"t\"";  // a quoted string as a literal: matches by kind only
     case 0: return LIT_ID[t.pick(2)];
     case 1: return LIT_OP[t.pick(3)];
     default: return t.chance(1, 4) ? LIT_KW[t.pick(15)] : LIT_KW[t.pick(7)];
@@ -414,7 +415,18 @@ static std::string gen_stream(Tape &t, const std::vector<MDef> &defs) {
   for (int c = 0; c < chunks; c++) {
     if (t.chance(3, 4)) {
       const MDef &d = defs[t.pick((unsigned)defs.size())];
-      for (auto &p : d.pattern) s += (p[0] == '<' ? filler(t, p, 0) : p) + " ";
+      for (auto &p : d.pattern) {
+        std::string tok = p[0] == '<' ? filler(t, p, 0) : p;
+        // near miss: a literal of the same kind with another text (must not match for identifiers, integers and
+        // operator characters; must still match for every other kind, e.g. quoted strings)
+        if (p[0] != '<' && t.chance(1, 8)) {
+          if (p == "A" || p == "B" || p == "x") tok = p == "A" ? "B" : "A";
+          else if (isdigit((unsigned char)p[0])) tok = p == "7" ? "8" : "7";
+          else if (p == "!" || p == "?" || p == "+") tok = p == "!" ? "?" : "!";
+          else if (p[0] == '"') tok = p == "\"s\"" ? "\"t\"" : "\"s\"";
+        }
+        s += tok + " ";
+      }
     } else {
       int n = 1 + (int)t.pick(4);
       for (int i = 0; i < n; i++) s += (t.chance(1, 2) ? lit(t) : std::string(LIT_ID[t.pick(3)])) + " ";
@@ -925,7 +937,8 @@ static void prop_c12(Tape &t, Result &r) {
   j.set("pattern", pat);
   r.sample = j;
   r.hash = fnv1a(pat);
-  std::vector<std::string> batch = {pat, pat + "<P>", pat + "<ARGS>", pat + "<P> ;", pat + "<ARGS> ,"};
+  // the last entry repeats an earlier definition literally (a macro file included twice): it is reported again
+  std::vector<std::string> batch = {pat, pat + "<P>", pat + "<ARGS>", pat + "<P> ;", pat + "<ARGS> ,", pat + "<P>"};
   Verdicts v;
   verdicts_for(batch, v, r);
   if (!r.ok || r.harness_error) return;
